@@ -202,7 +202,20 @@ func genShortestNumber(t *rapid.T) []byte {
 }
 
 func genFreeVal(t *rapid.T) []byte {
-	switch rapid.IntRange(0, 9).Draw(t, "valKind") {
+	switch rapid.IntRange(0, 10).Draw(t, "valKind") {
+	case 10:
+		// a long value, around the sizes at which code that works in fixed blocks changes path (hash block
+		// sizes, stack buffers, the 1/3-byte length boundary); close names then differ somewhere inside it
+		n := rapid.SampledFrom([]int{15, 16, 17, 31, 32, 33, 47, 48, 49, 50, 56, 63, 64, 65, 72, 127, 128, 129, 252, 253, 256}).Draw(t, "longLen")
+		v := make([]byte, n)
+		fill := rapid.SampledFrom(smallAlphabet).Draw(t, "longFill")
+		for i := range v {
+			v[i] = fill
+		}
+		for k := rapid.IntRange(0, 3).Draw(t, "longSpots"); k > 0; k-- {
+			v[rapid.IntRange(0, n-1).Draw(t, "longAt")] = rapid.Byte().Draw(t, "longByte")
+		}
+		return v
 	case 0, 1, 2:
 		return append([]byte(nil), rapid.SampledFrom(specialVals).Draw(t, "special")...)
 	case 3, 4, 5:
